@@ -293,6 +293,10 @@ def to_str(ctx, fr, v):
         return r
     if isinstance(v, SText):
         return v
+    if isinstance(v, SOpt):
+        # str(None) == "None"; otherwise the text of the value
+        inner = to_str(ctx, fr, v.val)
+        return inner if v.isnone is False else merge(v.isnone, "None", inner)
     if isinstance(v, SInt) and ctx.__dict__.get("text_ropes"):
         return SText("leaf", v)
     if isinstance(v, SInt):
